@@ -336,7 +336,11 @@ Proof.
       { intros g rc cc ln0 Hc Hrc. eapply align_body; eauto; try discriminate; try apply not_deep_val. }
       assert (Hcase : (v = VNone /\ cl_allow_none cl = false /\ r = Err KNone /\ st' = rollback_frame st2 0) \/
                       (none_check cl v = Val v /\ r = Val v /\ s_rolled st' = s_rolled st2)).
-      { unfold none_check. destruct (cl_cached cl) eqn:Ec; [unfold store_value in H|]; destruct v as [z|].
+      assert (Hrt : s_rolled (pop_tainted st2) = s_rolled st2) by reflexivity.
+      { unfold none_check. destruct (tainted st2).
+        { destruct v as [z|]; [right; inversion H; subst; repeat split; auto|].
+          destruct (cl_allow_none cl) eqn:Ea; [right|left]; inversion H; subst; repeat split; auto. }
+        destruct (cl_cached cl) eqn:Ec; [unfold store_value in H|]; destruct v as [z|].
         - right. inversion H; subst. repeat split; auto; rewrite rolled_pop; reflexivity.
         - destruct (cl_allow_none cl) eqn:Ea.
           + right. inversion H; subst. repeat split; auto; rewrite rolled_pop; reflexivity.
@@ -472,7 +476,7 @@ Proof.
   intros H Hk HI Hc g rc cc Hsp Hrc. unfold eval_top in H.
   destruct (lookup_cell (s_cells st) (fst i)) as [cl|] eqn:El; [|congruence].
   destruct (if cl_cached cl then lookup_data (s_data st) i else None) eqn:Eh; [inversion H|].
-  set (st0 := upd_rolled (upd_err st None) []) in *.
+  set (st0 := upd_taint (upd_rolled (upd_err st None) []) 0) in *.
   destruct (eval_formula fuel st0 cl i) as [[v|k'|] st1] eqn:Ef; inversion H; subst k' st'. clear H.
   assert (I0 : Inv st0) by exact HI.
   assert (Hnd : not_deep (@Err val k)) by (intros k0 E; inversion E; subst; exact Hk).
@@ -497,7 +501,7 @@ Proof.
   intros H HI Hro. unfold eval_top in H.
   destruct (lookup_cell (s_cells st) (fst i)) as [cl|] eqn:El; [|inversion H].
   destruct (if cl_cached cl then lookup_data (s_data st) i else None) eqn:Eh; [inversion H; subst; exact Hro|].
-  set (st0 := upd_rolled (upd_err st None) []) in *.
+  set (st0 := upd_taint (upd_rolled (upd_err st None) []) 0) in *.
   destruct (eval_formula fuel st0 cl i) as [[w|k'|] st1] eqn:Ef; inversion H; subst. clear H.
   assert (I0 : Inv st0) by exact HI.
   destruct (proj1 (proj2 (proj2 (proj2 (sim3_all fuel)))) st0 cl i _ _ Ef ltac:(discriminate) (not_deep_val _) I0 eq_refl El Eh)
@@ -529,14 +533,14 @@ Qed.
 (** after any history of evaluations, value edits, clearing, redefinitions and
     reference assignments admitted by [ops_ok2] (the hypotheses of C02) *)
 Theorem traceback_exact_after_history fuel cells refs maxd ops xs st i k st' :
-  defs_ok cells -> refn_ok (init cells refs maxd) -> ops_ok2 fuel (init cells refs maxd) ops ->
+  refn_ok (init cells refs maxd) -> ops_ok2 fuel (init cells refs maxd) ops ->
   run fuel (init cells refs maxd) ops = (xs, st) -> no_fuel_out xs -> s_reent st = false ->
   eval_top fuel st i = (Err k, st') -> k <> KDeep -> lookup_cell (s_cells st) (fst i) <> None ->
   forall g rc cc, spec_chain g (defs_of st) (input_data st) i = (rc, cc) -> rc <> OutOfFuel ->
   rc = Err k /\ s_err st' = Some (k, cc) /\ s_rolled st' = [].
 Proof.
-  intros Hok Hrn Hops Hrun Hnf Hre H Hk Hc g rc cc Hsp Hrc.
-  destruct (history_correct2 _ _ _ _ _ _ _ Hok Hrn Hops Hrun Hnf Hre) as (((HI & _) & _) & _).
+  intros Hrn Hops Hrun Hnf Hre H Hk Hc g rc cc Hsp Hrc.
+  destruct (history_correct2 _ _ _ _ _ _ _ Hrn Hops Hrun Hnf Hre) as (((HI & _) & _) & _).
   eapply traceback_exact; eauto.
 Qed.
 
